@@ -274,6 +274,18 @@ def expand(fmt, iface, sv, cv, mac, default):
 
 def gen_o82build(rng, n):
     cases = []
+    # the 255-byte bound of C19_option82_build, with and without the 3 flag bytes: 4 + |circuit| + |remote| (+3) around 255
+    for fl in (0, 1):
+        for tot in range(244, 256):
+            lc = rng.choice([0, 1, tot // 2, tot - 1, tot])
+            lc = min(lc, tot, 255)
+            lr = min(tot - lc, 255)
+            cf, rf = "c" * lc if lc else "{unknown-placeholder}"[:0] or "", "r" * lr
+            cf = cf if cf else "{cvlan}"  # an empty format means "default": use a 1..5 char expansion instead
+            ec = expand(cf, "e0", 1, 7, "m", "{interface}:{svlan}:{cvlan}")
+            er = expand(rf, "e0", 1, 7, "m", "{mac}")
+            cases.append("o82build %d %d %s %s %s %d %d %s %s %s" % (
+                fl, rng.randint(0, 1), hx(cf.encode()), hx(rf.encode()), hx(b"e0"), 1, 7, hx(b"m"), hx(ec.encode()), hx(er.encode())))
     fmts = ["", "{interface}:{svlan}:{cvlan}", "{mac}", "x", "{svlan}.{cvlan}", "{interface}", "{mac}{mac}", "{unknown}", "{svlan",
             "A" * 100, "B" * 125, "C" * 126, "D" * 200, "E" * 251, "F" * 255, "G" * 256, "{interface}" * 20]
     for _ in range(n):
